@@ -8,8 +8,20 @@ package decoder
 // bounds, division, explicit panic) for every byte string.
 
 //@ func DecodeCRI
+//@   pure
+//@   ensures result1 == nil ==> sameblock(row.Time, data) && off(row.Time) == off(data) && nochr(row.Time, ' ')
+//@   ensures result1 == nil ==> len(row.Time) < len(data) && data[len(row.Time)] == ' '
+//@   ensures result1 == nil ==> len(row.Stream) == 6 && nochr(row.Stream, ' ') && sameblock(row.Stream, data)
+//@   ensures result1 == nil ==> sameblock(row.Log, data) && off(row.Log) + len(row.Log) <= off(data) + len(data)
+//@   ensures result1 == nil && !row.IsPartial ==> off(row.Log) + len(row.Log) == off(data) + len(data)
+//@   ensures result1 == nil && row.IsPartial ==> off(row.Log) + len(row.Log) + 1 >= off(data) + len(data)
+//@   ensures result1 == nil ==> off(row.Time) + len(row.Time) < off(row.Stream) && off(row.Stream) + len(row.Stream) < off(row.Log)
+//@   loop 1 invariant sameblock(data, old(data)) && off(data) + len(data) == off(old(data)) + len(old(data)) && off(data) > off(old(data)) + len(row.Time)
+//@   loop 1 invariant isnil(stream) || (sameblock(stream, data) && nochr(stream, ' ') && off(stream) + len(stream) < off(data) && off(stream) > off(row.Time) + len(row.Time))
+//@   loop 1 invariant sameblock(row.Time, old(data)) && off(row.Time) == off(old(data)) && nochr(row.Time, ' ') && len(row.Time) < len(old(data)) && old(data)[len(row.Time)] == ' '
 
 //@ func DecodePostgres
+//@   modifies data
 
 //@ func spaceSplit
 //@   pure
@@ -21,6 +33,7 @@ package decoder
 //@   loop 1 invariant forall k :: 0 <= k && k < len(res) ==> b[res[k]] == ' '
 
 //@ func (*nginxErrorDecoder).Decode
+//@   pure
 //@   loop 1 invariant 0 <= i
 //@   loop 1 invariant isnil(row.TID) || fresh(row.TID)
 //@   loop 1 invariant isnil(row.PID) || fresh(row.PID)
@@ -29,6 +42,7 @@ package decoder
 //@     pure
 
 //@ func (*nginxErrorDecoder).extractCustomFields
+//@   pure
 
 //@ func syslogParsePriority
 //@   pure
@@ -47,24 +61,50 @@ package decoder
 //@   pure
 
 //@ func (*syslogRFC3164Decoder).Decode
+//@   pure
 
 //@ func (*syslogRFC3164Decoder).validateTimestamp
 //@   pure
 //@   ensures result ==> len(ts) >= 16
 
 //@ func (*syslogRFC5424Decoder).Decode
+//@   pure
 
 //@ func (*syslogRFC5424Decoder).validateTimestamp
 //@   pure
 //@   loop 1 invariant 2 <= i && i <= len(ts)
 
 //@ func (*syslogRFC5424Decoder).parseStructuredData
+//@   pure
+//@   ensures result2 ==> result1 >= 0
+//@   loop 1 invariant 0 <= offset
+//@   loop 2 invariant 0 <= offset && !wasClose
+//@   loop 2 invariant r.s == data && r.i == idx && 0 <= idx && idx <= len(data)
+//@   loop 2 invariant 0 <= startParamID && startParamID <= idx
+//@   loop 2 invariant 0 <= startParamValue && startParamValue <= idx
 
 //@ func (*syslogRFC5424Decoder).readUntilSpaceOrNilValue
 //@   pure
 //@   ensures result1 ==> (result0 == 0 && len(data) >= 2) || (0 < result0 && result0 < len(data))
 
 //@ func (*CSVDecoder).Decode
+//@   modifies data
+//@   loop 1 invariant !isnil(buffers) && fresh(buffers) && (isnil(buffers.recordBuffer) || fresh(buffers.recordBuffer)) && (isnil(buffers.fieldIndexes) || fresh(buffers.fieldIndexes))
+//@   loop 1 invariant allrange(buffers.fieldIndexes, 0, len(buffers.recordBuffer) + 1) && nondecreasing(buffers.fieldIndexes)
+//@   loop 2 invariant !isnil(buffers) && fresh(buffers) && (isnil(buffers.recordBuffer) || fresh(buffers.recordBuffer)) && (isnil(buffers.fieldIndexes) || fresh(buffers.fieldIndexes))
+//@   loop 2 invariant allrange(buffers.fieldIndexes, 0, len(buffers.recordBuffer) + 1) && nondecreasing(buffers.fieldIndexes)
+//@   loop 3 invariant 0 <= preIdx && preIdx <= len(str)
+//@   loop 3 invariant rangeindex >= 0 && rangeindex < len(buffers.fieldIndexes) ==> preIdx == buffers.fieldIndexes[rangeindex]
+//@   loop 3 invariant rangeindex < len(buffers.fieldIndexes) && (rangeindex == -1 ==> preIdx == 0)
+//@   assert after "buffers.fieldIndexes = append(buffers.fieldIndexes, len(buffers.recordBuffer))" allrange(buffers.fieldIndexes, 0, len(buffers.recordBuffer) + 1) && nondecreasing(buffers.fieldIndexes)
+//@   assert at "str := string(buffers.recordBuffer)" allrange(buffers.fieldIndexes, 0, len(buffers.recordBuffer) + 1) && nondecreasing(buffers.fieldIndexes)
+//@   callee GetBuffers()
+//@     pure
+//@     ensures !isnil(result) && fresh(result)
+//@     ensures isnil(result.recordBuffer) || fresh(result.recordBuffer)
+//@     ensures isnil(result.fieldIndexes) || fresh(result.fieldIndexes)
+//@   callee PutBuffers(b)
+//@     pure
 
 //@ func atoi
 //@   pure
